@@ -82,6 +82,140 @@ def dunder_classes(table):
     return [base] + table.operators()
 
 
+def _scalar_arithmetic_by_evaluation(ctx, ck, base, homothety, comp) -> bool:
+    """S4 decided by evaluating k * A, A * k, A / k, -A and +A (sa/axinterp.py, Python's operator protocol included) for A an
+    opaque operator and A a scalar operator of symbolic value v, with a symbolic scalar k: the result is the scalar operator of
+    value k (resp. 1/k, -1) on the output structure of A composed with A - or, for the scalar operator, the scalar operator of
+    value k v (resp. v / k, -v) on the same structure.  Values are compared as rational monomials.  Returns True when decided."""
+    from ..axinterp import Env, Func, Interp, Obj, Opaque, Raised, StructLeaf, Sym, Undecided, UNK
+
+    world, table = ctx.world, ctx.table
+    generic = table.find('furax._base.dense.DenseBlockDiagonalOperator')
+    out_fn = base.own.get('out_structure')
+    if generic is None:
+        return False
+    S_in = StructLeaf(((frozenset({'i'}), 3),))
+    S_out = StructLeaf(((frozenset({'o'}), 5),))
+
+    def monomial(v):
+        """(sign, numerator names, denominator names) of a product / quotient of symbols and +-1."""
+        if isinstance(v, Opaque):
+            return 1, [v.name], []
+        if isinstance(v, (int, float)) and not isinstance(v, bool) and v in (1, -1):
+            return int(v), [], []
+        if isinstance(v, Sym) and v.op in ('jnp.asarray', 'jnp.array', 'pos') and v.args:
+            return monomial(v.args[0])
+        if isinstance(v, Sym) and v.op == 'neg':
+            m = monomial(v.args[0])
+            return None if m is None else (-m[0], m[1], m[2])
+        if isinstance(v, Sym) and v.op in ('*', '/') and len(v.args) == 2:
+            a_, b_ = monomial(v.args[0]), monomial(v.args[1])
+            if a_ is None or b_ is None:
+                return None
+            if v.op == '*':
+                return a_[0] * b_[0], sorted(a_[1] + b_[1]), sorted(a_[2] + b_[2])
+            return a_[0] * b_[0], sorted(a_[1] + b_[2]), sorted(a_[2] + b_[1])
+        return None
+
+    def reduced(m):
+        if m is None:
+            return None
+        num, den = list(m[1]), list(m[2])
+        for x in list(num):
+            if x in den:
+                num.remove(x)
+                den.remove(x)
+        return m[0], sorted(num), sorted(den)
+
+    k = Opaque('scalar:k')
+    problems: list[str] = []
+    n = 0
+    cases = [('k * A', lambda A, it: it._object_binop(ast.Mult, k, A), (1, ['scalar:k'], [])),
+             ('A * k', lambda A, it: it._object_binop(ast.Mult, A, k), (1, ['scalar:k'], [])),
+             ('A / k', lambda A, it: it._object_binop(ast.Div, A, k), (1, [], ['scalar:k'])),
+             ('-A', lambda A, it: it.call_method(A, '__neg__'), (-1, [], []))]
+    for text, build, factor in cases:
+        for kind in ('opaque operator', 'scalar operator'):
+            it = Interp(world, table, budget=50_000)
+            it.symbolic = True
+            it.constructible = {c.qual for c in table.operators()}
+            if isinstance(out_fn, ast.FunctionDef):
+                it.summaries[id(out_fn)] = lambda args, kwargs: args[0].attrs.get('__out__', UNK)
+            if kind == 'opaque operator':
+                A = Obj(generic, {'_in_structure': S_in, '__out__': S_out, 'name': 'A'})
+            else:
+                A = Obj(homothety, {'value': Opaque('scalar:v'), '_in_structure': S_in, '__out__': S_in})
+            n += 1
+            try:
+                res = build(A, it)
+            except Raised as exc:
+                problems.append(f'{text} with A a {kind}: raises {exc.name}')
+                continue
+            except Undecided as exc:
+                ck.incomplete('S4', base.node, f'{text} with A a {kind} could not be evaluated: {exc}', instance='scalar arithmetic by evaluation')
+                return False
+            if it.degraded or not isinstance(res, Obj):
+                ck.incomplete('S4', base.node, f'{text} with A a {kind} could not be evaluated: {(it.degraded or [repr(res)[:60]])[0]}', instance='scalar arithmetic by evaluation')
+                return False
+            if kind == 'opaque operator':
+                ops = res.attrs.get('operands') if res.cls is comp else None
+                good = isinstance(ops, (list, tuple)) and len(ops) == 2 and isinstance(ops[0], Obj) and ops[0].cls is homothety and ops[1] is A
+                if not good:
+                    problems.append(f'{text} with A an opaque operator is {res.cls.name}, not (scalar operator) @ A')
+                    continue
+                got = reduced(monomial(ops[0].attrs.get('value')))
+                if got != reduced(factor):
+                    problems.append(f'{text}: the scalar operator has value {ops[0].attrs.get("value")!r}, expected {"k" if text in ("k * A", "A * k") else "1/k" if text == "A / k" else "-1"}')
+                if ops[0].attrs.get('_in_structure') is not S_out and ops[0].attrs.get('_in_structure') != S_out:
+                    problems.append(f'{text}: the scalar operator is not built on the output structure of A')
+            else:
+                want = reduced((factor[0], sorted(factor[1] + ['scalar:v']), factor[2]))
+                if res.cls is comp:
+                    ops = res.attrs.get('operands') or []
+                    vals = [o.attrs.get('value') for o in ops if isinstance(o, Obj) and o.cls is homothety]
+                    prod = None
+                    if len(vals) == len(ops) == 2:
+                        m0, m1 = monomial(vals[0]), monomial(vals[1])
+                        if m0 is not None and m1 is not None:
+                            prod = reduced((m0[0] * m1[0], m0[1] + m1[1], m0[2] + m1[2]))
+                    got = prod
+                else:
+                    got = reduced(monomial(res.attrs.get('value'))) if res.cls is homothety else None
+                if got != want:
+                    problems.append(f'{text} with A the scalar operator of value v denotes the scalar {res.attrs.get("value")!r}, expected '
+                                    f'{"k v" if text in ("k * A", "A * k") else "v / k" if text == "A / k" else "-v"}')
+    # a factor that is not 0-d is refused, one-element arrays of shape (1,) or (1, 1) included
+    from ..axinterp import AxArr
+
+    accepted: list[str] = []
+
+    for shape in ((1,), (1, 1), (3,)):
+        for text, op_ in (('k * A', ast.Mult), ('A / k', ast.Div)):
+            it = Interp(world, table, budget=50_000)
+            it.symbolic = True
+            it.constructible = {c.qual for c in table.operators()}
+            if isinstance(out_fn, ast.FunctionDef):
+                it.summaries[id(out_fn)] = lambda args, kwargs: args[0].attrs.get('__out__', UNK)
+            A = Obj(generic, {'_in_structure': S_in, '__out__': S_out, 'name': 'A'})
+            arr = AxArr(tuple((frozenset({f'f{j}'}), s_) for j, s_ in enumerate(shape)))
+            n += 1
+            try:
+                res = it._object_binop(op_, arr, A) if op_ is ast.Mult else it._object_binop(op_, A, arr)
+            except Raised:
+                continue
+            except Undecided as exc:
+                ck.incomplete('S4', base.node, f'{text} with a factor of shape {shape} could not be evaluated: {exc}', instance='scalar arithmetic by evaluation')
+                return False
+            if it.degraded:
+                ck.incomplete('S4', base.node, f'{text} with a factor of shape {shape} could not be evaluated: {it.degraded[0]}', instance='scalar arithmetic by evaluation')
+                return False
+            accepted.append(f'{text} with a factor of shape {shape} is accepted: only 0-d factors denote a scalar multiple (the scalar operator built from it changes the shape of what it is applied to)')
+    ck.expect('S4', not accepted, base.node, 'k * A and A / k refuse every factor that is not 0-d (shapes (1,), (1, 1) and (3,) evaluated)', accepted[0] if accepted else '', instance='non-scalar factors refused', semantic=True)
+    ck.expect('S4', not problems, base.node, f'k * A, A * k, A / k and -A evaluate to the scalar multiples (k, k, 1/k, -1) of A for an opaque and for a scalar operator ({n} cases, values compared as rational monomials)',
+              f'{problems[0] if problems else ""}', instance='scalar arithmetic by evaluation', semantic=True)
+    return True
+
+
 def run(ctx, ck) -> None:
     world, table = ctx.world, ctx.table
     ck.trust('Python binary-operator dispatch (forward, then reflected on NotImplemented when the types differ)',
@@ -94,6 +228,8 @@ def run(ctx, ck) -> None:
     identity = table.get(f'{CORE}.IdentityOperator')
     lazy_inv = table.get(f'{CORE}.AbstractLazyInverseOperator')
 
+    scalar_decided = _scalar_arithmetic_by_evaluation(ctx, ck, base, homothety, comp)
+    s4_start = len(ck.obs)
     ndunders = 0
     npaths = 0
     for cls in classes:
@@ -106,6 +242,8 @@ def run(ctx, ck) -> None:
                 npaths += _check_binary(ck, world, table, cls, name, fn, comp, add, homothety, identity, lazy_inv)
             else:
                 _check_scalar(ck, world, table, cls, name, fn, homothety)
+    if scalar_decided:
+        _supersede_scalar_forms(ck, s4_start)
     ck.floor('S1', ndunders, 16, 'arithmetic dunders on operator classes')
     ck.floor('S1', npaths, 14, 'operator-returning paths of structural binary dunders')
 
@@ -406,6 +544,16 @@ def _check_drops(ck, cls, name, fn, segs, S, O, reflected, alts, single: bool) -
               f'{cls.name}.{name} builds {what} leaving out {show(dropped)}' + ('' if pos_ok else f', which stands at the far end of the chain (the operand next to `other` is '
               f'self.operands[{"0" if reflected else "-1"}])') + ('' if guard_ok else '; no guard `X.operator is Y` relates the dropped operand and `other` on every way to reach this return')
               + ': the product changes', instance=f'{name} cancellation' + (' (single operand left)' if single else ''))
+
+
+def _supersede_scalar_forms(ck, start: int) -> None:
+    kept = []
+    for i, o in enumerate(ck.obs):
+        if i >= start and o.rule.endswith('S4') and o.status == 'incomplete' and any(w in o.construct for w in ('__rmul__', '__truediv__', '__mul__', '__neg__')):
+            ck.note(f'{o.rule} [{o.construct}] not decided structurally ({o.how[:100]}); superseded by the evaluation of the scalar arithmetic')
+            continue
+        kept.append(o)
+    ck.obs[:] = kept
 
 
 def _scalar_form(t, o):
